@@ -6,7 +6,8 @@ from . import e1common
 ASSUME = [
     "tags compared: getctag (both namespaces), sync-token, collection getetag",
     "cross-history oracle over ALL visited states: tag -> contents is a function, and (git) contents -> tag is a function",
-    "only one collection property (displayname) is in the alphabet so that the versioned metadata file has one canonical form per observable state",
+    "the tags are read a second time at the end of every audit (after the audit's own PROPFIND of all properties, GETs and reports): reads must not move them",
+    "only one collection property per configuration (displayname; colours in their own configuration) is in the alphabet so that the versioned metadata file has one canonical form per observable state",
 ]
 
 
@@ -18,6 +19,9 @@ def configs(tier):
         Config(front="wsgi", backend="tree", prefix="/", features=feats, bodies=bodies, props=props, oracles={"C08"}),
         Config(front="wsgi", backend="bare", prefix="/dav/", features=feats, bodies=bodies, props=props, oracles={"C08"}),
     ]
+    # property values next to the canonical ones (a colour without '#'): one property per configuration, see ASSUME
+    cprops = {"cal": {"calcolor": ["ff0000", "#00ff00"]}, "ab": {"abcolor": ["0000ff"]}}
+    out.append(Config(front="wsgi", backend="tree", prefix="/", features={"nope"}, bodies={"cal": ["X"], "ab": ["K"], "c2": []}, props=cprops, oracles={"C08"}, label="tree/wsgi+colours"))
     if tier == "thorough":
         out += [
             Config(front="aio", backend="tree", prefix="/dav/", features=feats | {"post"}, bodies=bodies, props=props, oracles={"C08"}),
